@@ -7,6 +7,7 @@ import (
 	"go/types"
 	"math"
 	"strings"
+	"sync"
 	"unicode/utf8"
 
 	"golang.org/x/tools/go/ssa"
@@ -21,9 +22,44 @@ type pathEnd struct{}                 // assume(false), or end after a fatal ass
 // AbsSeq is the result of []rune(s) / []byte(s) on an abstract string: only len() is supported.
 type AbsSeq struct{ Len *Term }
 
+type funcInfo struct {
+	index map[ssa.Value]int
+	n     int
+}
+
+var funcInfos sync.Map // *ssa.Function -> *funcInfo
+
+func infoOf(fn *ssa.Function) *funcInfo {
+	if fi, ok := funcInfos.Load(fn); ok {
+		return fi.(*funcInfo)
+	}
+	fi := &funcInfo{index: map[ssa.Value]int{}}
+	add := func(v ssa.Value) {
+		fi.index[v] = fi.n
+		fi.n++
+	}
+	for _, p := range fn.Params {
+		add(p)
+	}
+	for _, fv := range fn.FreeVars {
+		add(fv)
+	}
+	for _, b := range fn.Blocks {
+		for _, ins := range b.Instrs {
+			if v, ok := ins.(ssa.Value); ok {
+				add(v)
+			}
+		}
+	}
+	act, _ := funcInfos.LoadOrStore(fn, fi)
+	return act.(*funcInfo)
+}
+
 type frame struct {
 	fn     *ssa.Function
-	locals map[ssa.Value]Value
+	info   *funcInfo
+	locals []Value
+	set    []bool
 	defers []func()
 	// panicking is set while deferred calls run because of a panic (for recover()).
 	panicking *goPanic
@@ -62,6 +98,19 @@ type Engine struct {
 	strTerms  []*Term
 	deferring []*frame
 	entryName string
+
+	kb          map[string]bool
+	funcs       map[*ssa.Function]int
+	counters    map[string]int
+	initRunning map[*ssa.Package]bool
+	inInit      int
+	initTarget  *ssa.Function
+}
+
+func (fr *frame) put(v ssa.Value, x Value) {
+	i := fr.info.index[v]
+	fr.locals[i] = x
+	fr.set[i] = true
 }
 
 func (e *Engine) newObj(v Value, tag string) *Obj {
@@ -69,18 +118,93 @@ func (e *Engine) newObj(v Value, tag string) *Obj {
 	return &Obj{ID: e.nextID, Val: v, Tag: tag}
 }
 
-// choose implements forking by re-execution. opts[i] is the path-condition increment of option i.
-func (e *Engine) choose(opts []*Term) int {
+// ---- facts already established on the current path (cheap three-valued evaluator)
+
+// learn records that t has the given truth value on this path.
+func (e *Engine) learn(t *Term, val bool) {
+	if t == tTrue || t == tFalse {
+		return
+	}
+	switch t.Op {
+	case "not":
+		e.learn(t.Kids[0], !val)
+		return
+	case "and":
+		if val {
+			e.learn(t.Kids[0], true)
+			e.learn(t.Kids[1], true)
+		}
+	case "or":
+		if !val {
+			e.learn(t.Kids[0], false)
+			e.learn(t.Kids[1], false)
+		}
+	}
+	e.kb[t.S] = val
+}
+
+// evalKB returns 1 (implied true), 0 (implied false) or -1 (unknown) from recorded facts only.
+func (e *Engine) evalKB(t *Term) int {
+	if t == tTrue {
+		return 1
+	}
+	if t == tFalse {
+		return 0
+	}
+	if v, ok := e.kb[t.S]; ok {
+		if v {
+			return 1
+		}
+		return 0
+	}
+	switch t.Op {
+	case "not":
+		if r := e.evalKB(t.Kids[0]); r >= 0 {
+			return 1 - r
+		}
+	case "and":
+		a, b := e.evalKB(t.Kids[0]), e.evalKB(t.Kids[1])
+		if a == 0 || b == 0 {
+			return 0
+		}
+		if a == 1 && b == 1 {
+			return 1
+		}
+	case "or":
+		a, b := e.evalKB(t.Kids[0]), e.evalKB(t.Kids[1])
+		if a == 1 || b == 1 {
+			return 1
+		}
+		if a == 0 && b == 0 {
+			return 0
+		}
+	}
+	return -1
+}
+
+func (e *Engine) assertPC(t *Term) {
+	e.solver.Assert(t)
+	e.learn(t, true)
+}
+
+// choose implements forking by re-execution. opts[i] is the path-condition increment
+// of option i. exclusive: the options are mutually exclusive and exhaustive under
+// the path condition (branches, union alternatives), which lets the engine skip
+// queries whose answer follows.
+func (e *Engine) choose(opts []*Term) int { return e.chooseX(opts, false) }
+
+func (e *Engine) chooseX(opts []*Term, exclusive bool) int {
 	if e.depth < len(e.prefix) {
 		c := e.prefix[e.depth]
 		e.depth++
 		if c >= len(opts) {
 			panic(abort{"nondeterministic re-execution (prefix out of range)"})
 		}
-		e.solver.Assert(opts[c])
+		e.assertPC(opts[c])
 		return c
 	}
 	var feas []int
+	decided := false
 	for i, o := range opts {
 		if o == tFalse {
 			continue
@@ -89,15 +213,47 @@ func (e *Engine) choose(opts []*Term) int {
 			feas = append(feas, i)
 			continue
 		}
+		switch e.evalKB(o) {
+		case 0:
+			e.count("decided_by_path_facts", 1)
+			continue
+		case 1:
+			e.count("decided_by_path_facts", 1)
+			feas = append(feas, i)
+			if exclusive {
+				decided = true
+			}
+			continue
+		}
+		if decided {
+			continue
+		}
+		if exclusive && i == len(opts)-1 && len(feas) == 0 {
+			// every other alternative is infeasible and the path condition is satisfiable
+			e.count("decided_by_exhaustion", 1)
+			feas = append(feas, i)
+			continue
+		}
 		switch e.solver.CheckWith(o) {
 		case "unsat":
-			e.sh.count("infeasible", 1)
+			e.count("infeasible", 1)
+			e.learn(o, false)
 		case "unknown":
-			e.sh.count("feasibility_unknown_kept", 1)
+			e.count("feasibility_unknown_kept", 1)
 			feas = append(feas, i)
 		default:
 			feas = append(feas, i)
 		}
+	}
+	if decided {
+		// keep only the alternative known to hold
+		var only []int
+		for _, i := range feas {
+			if opts[i] == tTrue || e.evalKB(opts[i]) == 1 {
+				only = append(only, i)
+			}
+		}
+		feas = only[:1]
 	}
 	if len(feas) == 0 {
 		panic(pathEnd{})
@@ -109,7 +265,7 @@ func (e *Engine) choose(opts []*Term) int {
 	c := feas[0]
 	e.prefix = append(e.prefix[:e.depth], c)
 	e.depth++
-	e.solver.Assert(opts[c])
+	e.assertPC(opts[c])
 	return c
 }
 
@@ -126,7 +282,7 @@ func (e *Engine) branch(cond Value) bool {
 	case bool:
 		return c
 	case *Term:
-		return e.choose([]*Term{c, tNot(c)}) == 0
+		return e.chooseX([]*Term{c, tNot(c)}, true) == 0
 	}
 	panic(abort{fmt.Sprintf("branch on %T", cond)})
 }
@@ -145,20 +301,20 @@ func (e *Engine) freshName(name string) string {
 func (e *Engine) freshVar(name, sort string) *Term {
 	n := e.freshName(name)
 	e.solver.Declare(n, sort)
-	return &Term{n, sort}
+	return mkTerm(n, sort)
 }
 
 // ---- abstract strings
 
 func (e *Engine) registerStrTerm(t *Term) {
-	bl := &Term{"(bytelen " + t.S + ")", bvSort(64)}
-	rl := &Term{"(runelen " + t.S + ")", bvSort(64)}
+	bl := mkTerm("(bytelen "+t.S+")", bvSort(64))
+	rl := mkTerm("(runelen "+t.S+")", bvSort(64))
 	e.solver.Assert(tBin("bvule", rl, bl, "Bool"))
 	e.solver.Assert(tBin("bvule", bl, tBin("bvshl", rl, tBV(2, 64), bvSort(64)), "Bool"))
 	e.solver.Assert(tBin("bvult", bl, tBV(1<<32, 64), "Bool"))
 	empty := e.strLit("")
 	if t.S != empty.S {
-		e.solver.Assert(&Term{"(=> (= " + bl.S + " " + tBV(0, 64).S + ") (= " + t.S + " " + empty.S + "))", "Bool"})
+		e.solver.Assert(mkTerm("(=> (= "+bl.S+" "+tBV(0, 64).S+") (= "+t.S+" "+empty.S+"))", "Bool"))
 	}
 }
 
@@ -168,13 +324,13 @@ func (e *Engine) strLit(s string) *Term {
 	}
 	n := fmt.Sprintf("strlit_%d", len(e.strLits))
 	e.solver.Declare(n, "Str")
-	t := &Term{n, "Str"}
+	t := mkTerm(n, "Str")
 	for _, o := range e.strLits {
 		e.solver.Assert(tNot(tEq(t, o)))
 	}
 	e.strLits[s] = t
-	e.solver.Assert(tEq(&Term{"(bytelen " + n + ")", bvSort(64)}, tBV(int64(len(s)), 64)))
-	e.solver.Assert(tEq(&Term{"(runelen " + n + ")", bvSort(64)}, tBV(int64(utf8.RuneCountInString(s)), 64)))
+	e.solver.Assert(tEq(mkTerm("(bytelen "+n+")", bvSort(64)), tBV(int64(len(s)), 64)))
+	e.solver.Assert(tEq(mkTerm("(runelen "+n+")", bvSort(64)), tBV(int64(utf8.RuneCountInString(s)), 64)))
 	return t
 }
 
@@ -314,6 +470,9 @@ func (e *Engine) call(fnv Value, args []Value) Value {
 }
 
 func (e *Engine) callFn(fn *ssa.Function, args []Value, env []Value) Value {
+	if e.inInit > 0 && fn.Synthetic == "package initializer" && fn != e.initTarget {
+		return nil // imported packages are initialised lazily, on first access to one of their variables
+	}
 	if r, ok := e.intrinsic(fn, args); ok {
 		return r
 	}
@@ -323,14 +482,15 @@ func (e *Engine) callFn(fn *ssa.Function, args []Value, env []Value) Value {
 	if len(e.stack) > e.sh.cfg.MaxDepth {
 		panic(outOfBound{"call depth bound exceeded in " + fn.String()})
 	}
-	e.sh.noteFunc(fn)
+	e.noteFunc(fn)
 	e.stack = append(e.stack, fn)
-	fr := &frame{fn: fn, locals: make(map[ssa.Value]Value, 32)}
+	fi := infoOf(fn)
+	fr := &frame{fn: fn, info: fi, locals: make([]Value, fi.n), set: make([]bool, fi.n)}
 	for i, p := range fn.Params {
-		fr.locals[p] = args[i]
+		fr.put(p, args[i])
 	}
 	for i, fv := range fn.FreeVars {
-		fr.locals[fv] = env[i]
+		fr.put(fv, env[i])
 	}
 	var res Value
 	if fn.Recover != nil {
@@ -382,7 +542,7 @@ func (e *Engine) run(fr *frame, blk *ssa.BasicBlock) Value {
 			case *ssa.Phi:
 				for i, p := range blk.Preds {
 					if p == prev {
-						fr.locals[in] = e.get(fr, in.Edges[i])
+						fr.put(in, e.get(fr, in.Edges[i]))
 						break
 					}
 				}
@@ -446,7 +606,7 @@ func (e *Engine) run(fr *frame, blk *ssa.BasicBlock) Value {
 				panic(abort{"channel send"})
 			case *ssa.DebugRef:
 			case ssa.Value:
-				fr.locals[in] = e.eval(fr, in)
+				fr.put(in, e.eval(fr, in))
 			default:
 				panic(abort{fmt.Sprintf("unsupported instruction %T", ins)})
 			}
@@ -532,26 +692,82 @@ func (e *Engine) get(fr *frame, v ssa.Value) Value {
 	case *ssa.Builtin:
 		return v
 	case *ssa.Global:
-		o, ok := e.globals[v]
-		if !ok {
-			o = e.newObj(e.globalInit(v), "global:"+v.Name())
-			e.globals[v] = o
-		}
-		return Pointer{O: o}
+		return Pointer{O: e.globalObj(v)}
 	}
-	r, ok := fr.locals[v]
-	if !ok {
+	i, ok := fr.info.index[v]
+	if !ok || !fr.set[i] {
 		panic(abort{"undefined ssa value " + v.Name() + " in " + fr.fn.String()})
 	}
-	return r
+	return fr.locals[i]
 }
 
-// globalInit: package init functions are not executed; a global starts at its zero
-// value. Reading a global whose real initial value is not zero would be unsound, so
-// globals of cog packages that have an initialiser are reported as unsupported unless
-// whitelisted as "zero is right".
-func (e *Engine) globalInit(g *ssa.Global) Value {
-	return zero(g.Type().(*types.Pointer).Elem())
+// globalObj returns the heap object of a package-level variable. The first access to
+// a variable of a package of the code under test (or of the harness) runs that
+// package's initialiser (variable initialisers and init functions of THAT package
+// only; imported packages' initialisers are run the same way when first touched).
+// Variables of other packages, and variables an initialiser could not be executed
+// for, are poisoned: reading them aborts the path instead of seeing a wrong zero.
+func (e *Engine) globalObj(g *ssa.Global) *Obj {
+	if o, ok := e.globals[g]; ok {
+		return o
+	}
+	pkg := g.Pkg
+	runInit := pkg != nil && (strings.HasPrefix(pkg.Pkg.Path(), underTestPrefix) || strings.Contains(pkg.Pkg.Path(), "zzverif"))
+	if !runInit || e.initRunning[pkg] {
+		o := e.newObj(zero(g.Type().(*types.Pointer).Elem()), "global:"+g.String())
+		o.Poison = !runInit && g.Name() != "init$guard"
+		e.globals[g] = o
+		return o
+	}
+	// create every variable of the package, then run its initialiser
+	if e.initRunning == nil {
+		e.initRunning = map[*ssa.Package]bool{}
+	}
+	e.initRunning[pkg] = true
+	var all []*Obj
+	for _, m := range pkg.Members {
+		if gv, ok := m.(*ssa.Global); ok {
+			if _, ok := e.globals[gv]; !ok {
+				o := e.newObj(zero(gv.Type().(*types.Pointer).Elem()), "global:"+gv.String())
+				e.globals[gv] = o
+				all = append(all, o)
+			}
+		}
+	}
+	if initFn := pkg.Func("init"); initFn != nil {
+		ok := e.runInit(initFn)
+		if !ok {
+			for _, o := range all {
+				if !o.Written {
+					o.Poison = true
+				}
+			}
+		}
+	}
+	return e.globals[g]
+}
+
+func (e *Engine) runInit(initFn *ssa.Function) (ok bool) {
+	saveStack, saveSteps := len(e.stack), e.steps
+	e.inInit++
+	saveTarget := e.initTarget
+	e.initTarget = initFn
+	defer func() {
+		e.inInit--
+		e.initTarget = saveTarget
+		if r := recover(); r != nil {
+			switch r.(type) {
+			case abort, outOfBound, goPanic:
+				e.stack = e.stack[:saveStack]
+				e.steps = saveSteps
+				ok = false
+			default:
+				panic(r)
+			}
+		}
+	}()
+	e.callFn(initFn, nil, nil)
+	return true
 }
 
 func constVal(c *ssa.Const) Value {
@@ -615,9 +831,9 @@ func (e *Engine) eval(fr *frame, v ssa.Value) Value {
 				return -n
 			case *Term:
 				if n.Sort == "F64" || n.Sort == "F32" {
-					return &Term{"(fp.neg " + n.S + ")", n.Sort}
+					return mkTerm("(fp.neg "+n.S+")", n.Sort)
 				}
-				return &Term{"(bvneg " + n.S + ")", n.Sort}
+				return mkTerm("(bvneg "+n.S+")", n.Sort)
 			}
 		case token.XOR:
 			switch n := x.(type) {
@@ -625,7 +841,7 @@ func (e *Engine) eval(fr *frame, v ssa.Value) Value {
 				ii, _ := intInfoOf(in.Type())
 				return normInt(^n, ii)
 			case *Term:
-				return &Term{"(bvnot " + n.S + ")", n.Sort}
+				return mkTerm("(bvnot "+n.S+")", n.Sort)
 			}
 		case token.ARROW:
 			panic(abort{"channel receive"})
@@ -816,7 +1032,7 @@ func (e *Engine) concretizeStr(u *UStr) string {
 	for _, a := range u.Alts {
 		opts = append(opts, a.G)
 	}
-	return u.Alts[e.choose(opts)].S
+	return u.Alts[e.chooseX(opts, true)].S
 }
 
 func (e *Engine) concreteStr(v Value) string {
@@ -1113,13 +1329,13 @@ func (e *Engine) floatBinop(op token.Token, x, y Value, bits int) Value {
 	case token.GEQ:
 		return boolVal(tBin("fp.geq", ta, tb, "Bool"))
 	case token.ADD:
-		return &Term{"(fp.add RNE " + ta.S + " " + tb.S + ")", ta.Sort}
+		return mkTerm("(fp.add RNE "+ta.S+" "+tb.S+")", ta.Sort)
 	case token.SUB:
-		return &Term{"(fp.sub RNE " + ta.S + " " + tb.S + ")", ta.Sort}
+		return mkTerm("(fp.sub RNE "+ta.S+" "+tb.S+")", ta.Sort)
 	case token.MUL:
-		return &Term{"(fp.mul RNE " + ta.S + " " + tb.S + ")", ta.Sort}
+		return mkTerm("(fp.mul RNE "+ta.S+" "+tb.S+")", ta.Sort)
 	case token.QUO:
-		return &Term{"(fp.div RNE " + ta.S + " " + tb.S + ")", ta.Sort}
+		return mkTerm("(fp.div RNE "+ta.S+" "+tb.S+")", ta.Sort)
 	}
 	panic(abort{"symbolic float binop " + op.String()})
 }
@@ -1139,11 +1355,11 @@ func (e *Engine) convert(x Value, from, to types.Type) Value {
 			case ti.bits == fi.bits:
 				return n
 			case ti.bits < fi.bits:
-				return &Term{fmt.Sprintf("((_ extract %d 0) %s)", ti.bits-1, n.S), bvSort(ti.bits)}
+				return mkTerm(fmt.Sprintf("((_ extract %d 0) %s)", ti.bits-1, n.S), bvSort(ti.bits))
 			case fi.unsigned:
-				return &Term{fmt.Sprintf("((_ zero_extend %d) %s)", ti.bits-fi.bits, n.S), bvSort(ti.bits)}
+				return mkTerm(fmt.Sprintf("((_ zero_extend %d) %s)", ti.bits-fi.bits, n.S), bvSort(ti.bits))
 			default:
-				return &Term{fmt.Sprintf("((_ sign_extend %d) %s)", ti.bits-fi.bits, n.S), bvSort(ti.bits)}
+				return mkTerm(fmt.Sprintf("((_ sign_extend %d) %s)", ti.bits-fi.bits, n.S), bvSort(ti.bits))
 			}
 		}
 	case fIsInt && tf != 0:
@@ -1165,9 +1381,9 @@ func (e *Engine) convert(x Value, from, to types.Type) Value {
 				fs, spec = "F32", "8 24"
 			}
 			if fi.unsigned {
-				return &Term{"((_ to_fp_unsigned " + spec + ") RNE " + n.S + ")", fs}
+				return mkTerm("((_ to_fp_unsigned "+spec+") RNE "+n.S+")", fs)
 			}
-			return &Term{"((_ to_fp " + spec + ") RNE " + n.S + ")", fs}
+			return mkTerm("((_ to_fp "+spec+") RNE "+n.S+")", fs)
 		}
 	case ff != 0 && tIsInt:
 		switch f := x.(type) {
@@ -1181,9 +1397,9 @@ func (e *Engine) convert(x Value, from, to types.Type) Value {
 			return normInt(int64(f), ti)
 		case *Term:
 			if ti.unsigned {
-				return &Term{fmt.Sprintf("((_ fp.to_ubv %d) RTZ %s)", ti.bits, f.S), bvSort(ti.bits)}
+				return mkTerm(fmt.Sprintf("((_ fp.to_ubv %d) RTZ %s)", ti.bits, f.S), bvSort(ti.bits))
 			}
-			return &Term{fmt.Sprintf("((_ fp.to_sbv %d) RTZ %s)", ti.bits, f.S), bvSort(ti.bits)}
+			return mkTerm(fmt.Sprintf("((_ fp.to_sbv %d) RTZ %s)", ti.bits, f.S), bvSort(ti.bits))
 		}
 	case ff != 0 && tf != 0:
 		switch f := x.(type) {
@@ -1197,9 +1413,9 @@ func (e *Engine) convert(x Value, from, to types.Type) Value {
 				return f
 			}
 			if tf == 32 {
-				return &Term{"((_ to_fp 8 24) RNE " + f.S + ")", "F32"}
+				return mkTerm("((_ to_fp 8 24) RNE "+f.S+")", "F32")
 			}
-			return &Term{"((_ to_fp 11 53) RNE " + f.S + ")", "F64"}
+			return mkTerm("((_ to_fp 11 53) RNE "+f.S+")", "F64")
 		}
 	case isStringType(from) && isStringType(to):
 		return x
@@ -1212,9 +1428,9 @@ func (e *Engine) convert(x Value, from, to types.Type) Value {
 		if ts, ok := tu.(*types.Slice); ok {
 			if t, ok := x.(*Term); ok {
 				if eb, ok := ts.Elem().Underlying().(*types.Basic); ok && eb.Kind() == types.Uint8 {
-					return &AbsSeq{Len: &Term{"(bytelen " + t.S + ")", bvSort(64)}}
+					return &AbsSeq{Len: mkTerm("(bytelen "+t.S+")", bvSort(64))}
 				}
-				return &AbsSeq{Len: &Term{"(runelen " + t.S + ")", bvSort(64)}}
+				return &AbsSeq{Len: mkTerm("(runelen "+t.S+")", bvSort(64))}
 			}
 			s := e.concreteStr(x)
 			var elems []Value
@@ -1404,7 +1620,7 @@ func (e *Engine) builtin(fr *frame, b *ssa.Builtin, call *ssa.Call, args []Value
 			return int64(len(e.concretizeStr(x)))
 		case *Term:
 			if x.Sort == "Str" {
-				return &Term{"(bytelen " + x.S + ")", bvSort(64)}
+				return mkTerm("(bytelen "+x.S+")", bvSort(64))
 			}
 		case *AbsSeq:
 			return x.Len
@@ -1544,6 +1760,11 @@ func (e *Engine) builtin(fr *frame, b *ssa.Builtin, call *ssa.Call, args []Value
 		}
 	case "print", "println":
 		return nil
+	case "ssa:wrapnilchk":
+		if p, ok := args[0].(Pointer); ok && p.O == nil {
+			panic(goPanic{"value method " + e.concreteStr(args[1]) + "." + e.concreteStr(args[2]) + " called using nil pointer"})
+		}
+		return args[0]
 	}
 	panic(abort{fmt.Sprintf("builtin %s on %T", b.Name(), args[0])})
 }
